@@ -4,7 +4,7 @@ import math
 import numpy as np
 from hypothesis import strategies as st
 
-from .. import drive, gen
+from .. import geom, drive, gen, observe
 from ..runner import Outcome, Part
 
 ID = "C13"
@@ -185,6 +185,12 @@ def run_sweep(spec):
         model_classes(o, first[0].rodded.pin_model, spec)
         steps = [0]
         from dassh.region_rodded import q_p2sc
+        from dassh.correlations import nusselt_db
+        metas = spec["_meta"].get("types", {})
+        cm = spec["materials"].get(spec["core"]["coolant_material"])
+        const_cool = cm is not None
+        if const_cool:
+            mu_c, k_c, cp_c = cm["viscosity"][0], cm["thermal_conductivity"][0], cm["heat_capacity"][0]
 
         def after(i, z, dz, regs):
             for a, reg in zip(r.assemblies, regs):
@@ -215,7 +221,29 @@ def run_sweep(spec):
                 o.check(bool(np.all(d >= -1e-9)), "sweep_ordering", "asm %d step %d: %.3e" % (a.id, i, float(d.min())))
                 if p_lin is None or not np.any(p_lin > 0):
                     o.check(float(np.max(np.abs(t[:, 4:] - t[:, 3:4]))) <= 1e-9, "sweep_zero_power_not_flat")
-        drive.sweep(r, None, after)
+                elif const_cool and a.name in metas:
+                    # film drop with a film coefficient derived here: bundle Reynolds number from the flow INSIDE the inner
+                    # duct and the harness' own bundle area / hydraulic diameter, Dittus-Boelter form with the model's constants
+                    m_ = metas[a.name]
+                    area, wp = geom.bundle_area_wp(m_["n_ring"], m_["P"], m_["D"], m_["Dw"], m_["H"], m_["inner_ftf"])
+                    de = 4.0 * area / wp
+                    Re = float(reg.int_flow_rate) / area * de / mu_c
+                    cc = reg.pin_model.htc_params or list(nusselt_db._DEFAULT_DB_CONSTS)
+                    h_ref = k_c * (cc[0] * Re ** cc[1] * (cp_c * mu_c / k_c) ** cc[2] + cc[3]) / de
+                    # (summed over the pins and compared with the pin power actually delivered over this step, which
+                    # includes the per-cell renormalisation of the power profile)
+                    q_sum = (observe.total_power_delivered(a)["pins"] - pd0[a.id]) / dz
+                    film_sum = float(np.sum(t[:, 4] - t[:, 3])) * np.pi * m_["D"] * h_ref
+                    ef = abs(film_sum - q_sum) / (abs(q_sum) + 1e-6 * np.pi * m_["D"] * h_ref * float(np.sum(np.abs(t[:, 3]))))
+                    o.metric("sweep_film_rel_err", ef)
+                    o.check(ef <= 1e-7, "sweep_film_drop", "asm %d step %d: sum of film drops x pi D h = %.8e W/m, pin power "
+                            "delivered %.8e W/m (Re %.5g, h %.6g, %d ducts)" % (a.id, i, film_sum, q_sum, Re, h_ref, reg.n_duct))
+        pd0 = {}
+
+        def before(i, z, dz):
+            for a in r.assemblies:
+                pd0[a.id] = observe.total_power_delivered(a)["pins"]
+        drive.sweep(r, before, after)
         o.classes["n_asm"] = len(r.assemblies)
         o.classes["same_type_with_pins"] = len(first) - len(set(a.name for a in first)) > 0
         o.nontrivial = steps[0] >= 10
